@@ -378,11 +378,16 @@ func c03(args []string) int {
 		jobs[i] = &histJob{id: i + 1, spec: sp}
 	}
 	runAll(jobs, run.N(400, 400))
-	return finishProxy(run, jobs, c03Finder)
+	return finishProxy(run, jobs, c03Finder, plainSpec)
+}
+
+// the one trivial history: a plain request answered 2xx, nothing else happening
+func plainSpec(sp *Spec) bool {
+	return len(sp.Pool) == 0 && len(sp.Events) == 1 && sp.Events[0].Kind == "upresp" && sp.Events[0].Status == 200 && len(sp.Filters) == 0
 }
 
 // common tail: finder on every history, shards of cases for the model comparison, evidence counters
-func finishProxy(run *Run, jobs []*histJob, finder func(*Run, *histJob)) int {
+func finishProxy(run *Run, jobs []*histJob, finder func(*Run, *histJob), trivial func(*Spec) bool) int {
 	var sh *Shard
 	for _, j := range jobs {
 		if j.res.Err != "" {
@@ -391,8 +396,7 @@ func finishProxy(run *Run, jobs []*histJob, finder func(*Run, *histJob)) int {
 		}
 		finder(run, j)
 		sp := j.spec
-		plain := len(sp.Pool) == 0 && len(sp.Events) == 1 && sp.Events[0].Kind == "upresp" && sp.Events[0].Status == 200 && len(sp.Filters) == 0
-		run.Count(specKey(sp), !plain, "class:"+sp.class())
+		run.Count(specKey(sp), !trivial(sp), "class:"+sp.class())
 		ri := replyOf(j.res)
 		switch {
 		case ri.Complete:
